@@ -209,6 +209,10 @@ class PathCtx:
                 return True
             if can_f and not can_t:
                 return False
+            # ask again with all hypotheses (quantified facts included)
+            full = self._decide_full(t)
+            if full is not None:
+                return full
             raise OutOfReach("the element expression of a comprehension branches on a symbolic condition")
         i = len(self.decisions)
         if i < len(self.prefix):
@@ -228,6 +232,17 @@ class PathCtx:
             self.run.pending.append(self.decisions[:-1] + [False])
         self._take(t, d)
         return d
+
+    def _decide_full(self, t, timeout_ms=4000):
+        for val, f in ((True, z3.Not(t)), (False, t)):
+            s_ = z3.Solver()
+            s_.set("timeout", timeout_ms)
+            for h in self.hyps:
+                s_.add(h)
+            s_.add(f)
+            if s_.check() == z3.unsat:
+                return val
+        return None
 
     def _take(self, t, d, record=True):
         c = t if d else z3.Not(t)
